@@ -131,6 +131,19 @@ where
     unwrap_ret(rec, B::NAME, "pie", B::VER, ktype::<K>(), bid, wid, r, note);
 }
 
+/// Text-level extensions of a serialised wrapped / sealed key: the honest text followed by further characters.  No byte string
+/// encodes to such a text, so for the trace it is a blob nobody ever produced (named by its UTF-8 bytes) and must be refused.
+pub fn extended_texts(text: &str) -> Vec<(String, Value)> {
+    [".", "..", ".AAAA", ".AAAA.BBBB", "\n", " ", "=", ".\n"].iter().map(|x| (format!("{text}{x}"), json!({"cls":"extend-text","suffix":x}))).collect()
+}
+
+fn unwrap_text<B: Backend>(rec: &mut Recorder, st: &mut Stats, wkind: &str, kt: &str, text: &str, with: &[u8], note: Value, f: impl FnOnce() -> Result<Vec<u8>, paseto_core::PasetoError>) {
+    let (bid, wid) = (rec.intern(text.as_bytes()), rec.intern(with));
+    st.unwraps += 1;
+    let r = guard(f);
+    unwrap_ret(rec, B::NAME, wkind, B::VER, kt, bid, wid, r, note);
+}
+
 #[allow(clippy::too_many_arguments)]
 fn unwrap_ret(rec: &mut Recorder, be: &str, wkind: &str, ver: u32, kt: &str, bid: u64, wid: u64, r: Result<Result<Vec<u8>, paseto_core::PasetoError>, String>, note: Value) {
     match r {
@@ -529,6 +542,11 @@ pub fn tamper<B: Backend>(rec: &mut Recorder, st: &mut Stats, cfg: &Cfg) {
             q.extend(vec![0u8; k]);
             pie_unwrap::<B, Local>(rec, st, &q, with, json!({"cls":"extend","k":k}));
         }
+        for (text, note) in extended_texts(&format!("{}{}", hdr_pie::<B, Local>(), crate::b64::enc(&blob))) {
+            if let Ok(w) = cached_key::<B::V, Local>(with) {
+                unwrap_text::<B>(rec, st, "pie", "local", &text, with, note, || PieWrappedKey::<B::V, Local>::from_str(&text)?.unwrap(&w).map(|k| key_bytes(&k)));
+            }
+        }
         if !only_relabel {
             for (q, note) in structural_variants(&blob) {
                 pie_unwrap::<B, Local>(rec, st, &q, with, note);
@@ -588,6 +606,9 @@ pub fn tamper<B: Backend>(rec: &mut Recorder, st: &mut Stats, cfg: &Cfg) {
             let mut q = blob.clone();
             q.extend(vec![0u8; k]);
             pw_unwrap::<B, Local>(rec, st, &q, pass, json!({"cls":"extend","k":k}));
+        }
+        for (text, note) in extended_texts(&format!("{}{}", hdr_pw::<B, Local>(), crate::b64::enc(&blob))) {
+            unwrap_text::<B>(rec, st, "pw", "local", &text, pass, note, || PasswordWrappedKey::<B::V, Local>::from_str(&text)?.unwrap(pass).map(|k| key_bytes(&k)));
         }
         if !only_relabel {
             for (q, note) in structural_variants(&blob) {
@@ -686,6 +707,11 @@ pub fn tamper<B: Backend>(rec: &mut Recorder, st: &mut Stats, cfg: &Cfg) {
             let mut q = blob.clone();
             q.extend(vec![0u8; k]);
             pke_unseal::<B>(rec, st, &q, &r0.secret, json!({"cls":"extend","k":k}));
+        }
+        for (text, note) in extended_texts(&format!("{}{}", hdr_seal::<B>(), crate::b64::enc(&blob))) {
+            if let Ok(sk) = cached_key::<B::V, paseto_core::version::PkeSecret>(&r0.secret) {
+                unwrap_text::<B>(rec, st, "seal", "local", &text, &r0.secret, note, || SealedKey::<B::V>::from_str(&text)?.unseal(&sk).map(|k| key_bytes(&k)));
+            }
         }
         if !only_relabel {
             for (q, note) in structural_variants(&blob) {
